@@ -17,3 +17,15 @@ def _comb(i, args, kw, node, fr):
         import math
         return math.comb(n, k) if 0 <= k <= n else 0
     return C(to_z3(n, Int), to_z3(k, Int))
+
+from . import hook  # noqa
+
+
+@hook("getattr")
+def _str_methods(i, v, name, node, fr):
+    if isinstance(v, str):
+        if name == "format":
+            return BoundMethod(v, lambda interp, s, a, k, n, f: "<formatted:%s>" % getattr(n, "lineno", "?"))
+        if name == "join":
+            return BoundMethod(v, lambda interp, s, a, k, n, f: "<joined:%s>" % getattr(n, "lineno", "?"))
+    return NotImplemented
